@@ -172,6 +172,8 @@ pub struct FileView {
     pub problems: Vec<String>,
     pub spans: Vec<Span>,
     pub len: u64,
+    /// CRC-protected blocks that verified: (file offset of the data, data length); the 4 CRC bytes follow the data
+    pub blocks: Vec<(u64, u64)>,
 }
 
 // ------------------------------------------------------------------------------------------------
@@ -197,6 +199,8 @@ fn le_signed(buf: &[u8], at: usize, n: usize) -> Option<i64> {
     Some(((v << shift) as i64) >> shift)
 }
 
+thread_local! { static BLOCKS: std::cell::RefCell<Vec<(usize, usize)>> = const { std::cell::RefCell::new(Vec::new()) }; }
+
 /// block = data followed by its CRC (big-endian)
 fn check_block(buf: &[u8], at: u64, data_len: u64) -> Result<&[u8], String> {
     let at = at as usize;
@@ -208,6 +212,10 @@ fn check_block(buf: &[u8], at: u64, data_len: u64) -> Result<&[u8], String> {
     let data = &buf[at..at + data_len];
     let stored = u32::from_be_bytes([buf[at + data_len], buf[at + data_len + 1], buf[at + data_len + 2], buf[at + data_len + 3]]);
     let crc = if data_len > 4096 { crc32c_fast(data) } else { crc32c_be(data) };
+    if crc == stored {
+        // remember where CRC-protected blocks lie (absolute addresses; turned into file offsets by decode_at)
+        BLOCKS.with(|b| b.borrow_mut().push((buf.as_ptr() as usize + at, data_len)));
+    }
     if crc != stored {
         return Err(format!("CRC mismatch on block at {at} (+{data_len}): computed {crc:08x}, stored {stored:08x}"));
     }
@@ -271,6 +279,18 @@ pub fn decode_file(buf: &[u8]) -> FileView {
 
 /// Decode a file whose (container) pack starts at `origin` (a container appended to a prefix).
 pub fn decode_at(buf: &[u8], origin: u64) -> FileView {
+    BLOCKS.with(|b| b.borrow_mut().clear());
+    let mut fv = decode_at_inner(buf, origin);
+    // CRC-protected blocks that verified, as (file offset of the data, data length); the CRC follows the data
+    let base = buf.as_ptr() as usize;
+    let mut blocks: Vec<(u64, u64)> = BLOCKS.with(|b| b.borrow().iter().filter(|(a, l)| *a >= base && a + l + 4 <= base + buf.len()).map(|(a, l)| ((a - base) as u64, *l as u64)).collect());
+    blocks.sort();
+    blocks.dedup();
+    fv.blocks = blocks;
+    fv
+}
+
+fn decode_at_inner(buf: &[u8], origin: u64) -> FileView {
     let mut fv = FileView { len: buf.len() as u64, ..Default::default() };
     let hdr = match check_block(buf, origin, 60).and_then(parse_pack_hdr) {
         Ok(h) => h,
